@@ -262,12 +262,16 @@ func c07StatusPath(c *core.Ctx) {
 	c.Analysed("ociregistry.WriteError")
 	// WriteError: WriteHeader(status returned by MarshalError), unmodified
 	found := false
-	for _, ci := range facts.CallsIn(we) {
+	var weCalls []ssa.CallInstruction
+	for _, f := range withHelpers(we) {
+		weCalls = append(weCalls, facts.CallsIn(f)...)
+	}
+	for _, ci := range weCalls {
 		cc := ci.Common()
 		if cc.IsInvoke() && cc.Method.Name() == "WriteHeader" {
 			found = true
 			ok := false
-			if ex, isEx := facts.Resolve(cc.Args[0]).(*ssa.Extract); isEx && ex.Index == 1 {
+			if ex, isEx := facts.Resolve(resolveUp(cc.Args[0], we, 3)).(*ssa.Extract); isEx && ex.Index == 1 {
 				if call, isCall := ex.Tuple.(*ssa.Call); isCall && call.Call.StaticCallee() == me {
 					ok = true
 				}
@@ -461,57 +465,92 @@ func c07ClientWrap(c *core.Ctx) {
 
 func c07Prefixes(c *core.Ctx) {
 	trim := c.P.Func("", "trimErrorCodePrefix")
-	aStatus := c.P.Func("", "appendHTTPStatusPrefix")
-	aCode := c.P.Func("", "appendErrorCodePrefix")
 	he := c.P.NamedType("", "httpError")
 	we := c.P.NamedType("", "WireError")
-	if trim == nil || aStatus == nil || aCode == nil || he == nil || we == nil {
-		c.Fail("C07.R6", "anchor/prefix-helpers", 0, "prefix helpers / error types not found")
+	if trim == nil || he == nil || we == nil {
+		c.Fail("C07.R6", "anchor/prefix-helpers", 0, "trimErrorCodePrefix / error types not found")
 		return
 	}
 	heErr := c.P.Method(types.NewPointer(he), "Error")
 	weErr := c.P.Method(types.NewPointer(we), "Error")
-	calls := func(fn, callee *ssa.Function) bool {
-		for _, ci := range facts.CallsIn(fn) {
-			if ci.Common().StaticCallee() == callee {
-				return true
+	// what a function (with the private helpers it reaches) formats a prefix with:
+	// the module helpers it calls and the standard formatting primitives it uses
+	uses := func(fn *ssa.Function) (helpers map[*ssa.Function]bool, prims map[string]bool) {
+		helpers, prims = map[*ssa.Function]bool{}, map[string]bool{}
+		for _, f := range withHelpers(fn) {
+			for _, ci := range facts.CallsIn(f) {
+				if sc := ci.Common().StaticCallee(); sc != nil {
+					if sc.Pkg == fn.Pkg && sc.Blocks != nil {
+						helpers[sc] = true
+					}
+					switch n := facts.CalleeName(ci.Common()); n {
+					case "strconv.AppendInt", "strconv.Itoa", "strconv.FormatInt", "net/http.StatusText", "unicode.ToLower", "strings.ToLower":
+						prims[n] = true
+					}
+				}
 			}
 		}
-		return false
+		return
 	}
 	appendsSep := func(fn *ssa.Function) bool {
 		// append(buf, ": "...) : a constant ": " converted and appended
-		for _, ci := range facts.CallsIn(fn) {
-			if bi, ok := ci.Common().Value.(*ssa.Builtin); ok && bi.Name() == "append" && len(ci.Common().Args) == 2 {
-				if s, ok := facts.ConstString(ci.Common().Args[1]); ok && s == ": " {
-					return true
-				}
-				if cv, ok := ci.Common().Args[1].(*ssa.Convert); ok {
-					if s, ok := facts.ConstString(cv.X); ok && s == ": " {
+		for _, f := range withHelpers(fn) {
+			for _, ci := range facts.CallsIn(f) {
+				if bi, ok := ci.Common().Value.(*ssa.Builtin); ok && bi.Name() == "append" && len(ci.Common().Args) == 2 {
+					if s, ok := facts.ConstString(ci.Common().Args[1]); ok && s == ": " {
 						return true
+					}
+					if cv, ok := ci.Common().Args[1].(*ssa.Convert); ok {
+						if s, ok := facts.ConstString(cv.X); ok && s == ": " {
+							return true
+						}
 					}
 				}
 			}
 		}
 		return false
 	}
-	for _, x := range []struct {
-		name string
-		fn   *ssa.Function
-		h    *ssa.Function
-	}{{"httpError.Error", heErr, aStatus}, {"WireError.Error", weErr, aCode}, {"trim/status", trim, aStatus}, {"trim/code", trim, aCode}} {
-		if x.fn == nil {
-			c.Fail("C07.R6", "prefix/"+x.name, 0, "function not found")
-			continue
-		}
-		c.Analysed(facts.FuncName(x.fn))
-		c.Check(calls(x.fn, x.h) && appendsSep(x.fn), "C07.R6", "prefix/"+x.name, x.fn.Pos(), "prefix built by "+x.h.Name()+` followed by ": "`, x.name+" does not build its prefix with "+x.h.Name()+` followed by ": ": the writer and the trimmer of message prefixes disagree and prefixes accumulate per hop`)
+	// the writer and the trimmer of a prefix agree when they build it the same
+	// way: through a common helper of the package, or (helpers inlined) with
+	// the same formatting primitives
+	statusPrims := func(p map[string]bool) bool {
+		return (p["strconv.AppendInt"] || p["strconv.Itoa"] || p["strconv.FormatInt"]) && p["net/http.StatusText"]
 	}
+	codePrims := func(p map[string]bool) bool { return p["unicode.ToLower"] || p["strings.ToLower"] }
+	if heErr == nil || weErr == nil {
+		c.Fail("C07.R6", "prefix/Error-methods", 0, "httpError.Error / WireError.Error not found")
+		return
+	}
+	th, tp := uses(trim)
+	for _, x := range []struct {
+		name  string
+		fn    *ssa.Function
+		prims func(map[string]bool) bool
+		what  string
+	}{{"httpError.Error", heErr, statusPrims, "<status> <status text>"}, {"WireError.Error", weErr, codePrims, "the lower-cased, space-separated error code"}} {
+		c.Analysed(facts.FuncName(x.fn))
+		h, p := uses(x.fn)
+		shared := false
+		for f := range h {
+			if th[f] && f != trim {
+				if _, fp := uses(f); x.prims(fp) {
+					shared = true
+				}
+			}
+		}
+		same := x.prims(p) && x.prims(tp)
+		c.Check((shared || same) && appendsSep(x.fn), "C07.R6", "prefix/"+x.name, x.fn.Pos(), "prefix ("+x.what+`, then ": ") built the same way as trimErrorCodePrefix rebuilds it`,
+			x.name+" does not build its prefix ("+x.what+`, then ": ") the way trimErrorCodePrefix rebuilds it (no common helper and not the same formatting primitives): the writer and the trimmer of message prefixes disagree and prefixes accumulate per hop`)
+	}
+	c.Analysed(facts.FuncName(trim))
+	c.Check(statusPrims(tp) && codePrims(tp) && appendsSep(trim), "C07.R6", "prefix/trim", trim.Pos(), `trimErrorCodePrefix rebuilds both the status prefix and the code prefix, each followed by ": "`, "trimErrorCodePrefix does not rebuild both the status prefix and the code prefix")
 	// trim actually strips with strings.TrimPrefix of the message
 	n := 0
-	for _, ci := range facts.CallsIn(trim) {
-		if facts.CalleeName(ci.Common()) == "strings.TrimPrefix" {
-			n++
+	for _, f := range withHelpers(trim) {
+		for _, ci := range facts.CallsIn(f) {
+			if facts.CalleeName(ci.Common()) == "strings.TrimPrefix" {
+				n++
+			}
 		}
 	}
 	c.Check(n >= 2, "C07.R6", "trim/strips-both", trim.Pos(), "strips the status prefix and the code prefix", "trimErrorCodePrefix does not strip both the status and the code prefix")
